@@ -127,6 +127,8 @@ def cases(tier, seed):
     for m in families.models():
         if in_fragment(m):
             yield ('S', m)
+    for m in rt.align_models(tier):
+        yield ('A', m)
     for m in rt.collision_models():
         if not any('"' in n or '.' in n for n in sh.names(m)):
             yield ('D', m)
